@@ -24,7 +24,7 @@ TEXT = {
   "technique": "Lean 4 + Mathlib theorems over R and generic theorems + translator (tables/constants/wrap statements) + bit-level correspondence + independent-ephemeris falsifier",
  },
  "C02": {
-  "text": "PARTIAL. Proved: h0 = -0.8333 within 1e-3; the first approximation of rise/set is the hour angle H0 in (0,180) with sin(phi)sin(dec)+cos(phi)cos(dec)cos(H0)=sin(h0) exactly, so Shurooq/Maghrib sit a positive fraction of a day before/after transit (R); weather reaches only Shurooq and Maghrib, never their validity, and absent weather is the default 1010 mbar/14 C (every scalar type); rise/set in closed form is linear in the single weather factor P/1010*283/(273+T), two weathers move the time by exactly 24*(mu-mu')*rho(alt0)/D hours, mu lies in [283/3333, 1050/1010*283/183] over the valid ranges, and |shift| <= 24*1.53*rho/D under bounds rho, D on the unit refraction and the correction denominator (R). Not proved: size of the Newton correction, the two envelope quantities rho and D, and agreement with the sky (0.05 deg) - falsifier with the independent ephemeris.",
+  "text": "PARTIAL. Proved: h0 = -0.8333 within 1e-3; the first approximation of rise/set is the hour angle H0 in (0,180) with sin(phi)sin(dec)+cos(phi)cos(dec)cos(H0)=sin(h0) exactly, so Shurooq/Maghrib sit a positive fraction of a day before/after transit (R); weather reaches only Shurooq and Maghrib, never their validity, and absent weather is the default 1010 mbar/14 C (every scalar type); rise/set in closed form is linear in the single weather factor P/1010*283/(273+T), two weathers move the time by exactly 24*(mu-mu')*rho(alt0)/D hours, mu lies in [283/3333, 1050/1010*283/183] over the valid ranges, and |shift| <= 24*1.53*rho/D under bounds rho, D on the unit refraction and the correction denominator (R); Shurooq-Dhuhr and Maghrib-Dhuhr equal -/+ the semi-diurnal arc plus the two one-step corrections modulo whole days exactly, hence Shurooq lies before and Maghrib after the same day's noon whenever the corrections are smaller than the arc (R). Not proved: size of the Newton correction, the two envelope quantities rho and D, and agreement with the sky (0.05 deg) - falsifier with the independent ephemeris.",
   "design_ref": "DESIGN.md §7 C02",
   "note": "Altitude clause explored, not proved; evaluated at the literal reported instant of the requested civil date; before/after noon is read modulo 24 h.",
   "technique": "Lean 4 + Mathlib theorems over R and generic non-interference theorems + translator + correspondence + independent-ephemeris falsifier",
